@@ -279,6 +279,7 @@ class Ctx:
         import hypothesis
 
         ctx = self
+        first: list = []
 
         @hypothesis.seed(self.hseed())
         @self.settings(max_examples, shrink=shrink)
@@ -291,6 +292,8 @@ class Ctx:
                     v.case = x
                 if ctx.absorb(v):
                     return
+                if not first:
+                    first.append(v)
                 raise
 
         try:
@@ -299,6 +302,21 @@ class Ctx:
             self.report(v)
             raise StopCheck() from v
         except hypothesis.errors.Flaky as e:  # pragma: no cover
+            # The code under test answered the same case differently on two evaluations (job ids
+            # are random uuids, and some defects only show for one ordering of them). A violation
+            # that was observed and shows again when its case is re-evaluated is reported with
+            # that case; one that never shows again is inconclusive (harness error, exit 2).
+            if first:
+                for _ in range(6):
+                    try:
+                        fn(first[0].case)
+                    except Violation as v2:
+                        if v2.key == first[0].key:
+                            v2.case = first[0].case if v2.case is None else v2.case
+                            self.report(v2)
+                            raise StopCheck() from v2
+                    except Exception:  # noqa: BLE001
+                        break
             raise HarnessError(f"flaky property: {e}") from e
 
     def run_machine(self, machine_cls, max_examples: int, steps: int, shrink: bool = True) -> None:
